@@ -48,6 +48,8 @@ def rty(r):
             "rslice": lambda: amp(s[0]) + "str", "rbox": lambda: "Box<OpLt<%s>>" % lt(s[0]),
             "rst1": lambda: "St1<%s>" % lt(s[0]), "rst2": lambda: "St2<%s, %s>" % (lt(s[0]), lt(s[1])),
             "ropqlt": lambda: "%sOpLt<%s>" % (amp(s[0]), lt(s[1])),
+            "ropqlt_e": lambda: "&OpLt<%s>" % lt(s[0]), "roptlt_e": lambda: "Option<&OpLt<%s>>" % lt(s[0]),
+            "rokerr_e": lambda: "Result<&Opq, Er1<%s>>" % lt(s[0]),
             "rerr1": lambda: "Result<(), Er1<%s>>" % lt(s[0]), "rwerr1": lambda: "Result<(), Er1<%s>>" % lt(s[0]),
             "rokerr": lambda: "Result<%sOpq, Er1<%s>>" % (amp(s[0]), lt(s[1]))}[k]()
 
@@ -60,18 +62,33 @@ def generics(L, decl):
     return "<%s>" % ", ".join(parts) if parts else ""
 
 
+def generics_where(L, decl):
+    """the same bounds written in a `where` clause: (generic list, where clause)"""
+    ws = []
+    for l in L:
+        bs = sorted(b for a, b in decl if a == l)
+        if bs:
+            ws.append("'%s: %s" % (l, " + ".join("'" + b for b in bs)))
+    return ("<%s>" % ", ".join("'" + l for l in L) if L else ""), ((" where " + ", ".join(ws)) if ws else "")
+
+
 def render(n, sig, L):
     decl = [tuple(x) for x in sig["decl"]]
+    # where the declared bounds are WRITTEN does not matter: inline on the generic list (even n) or in a where clause (odd n) -- for
+    # methods of the borrowing Self type that is a where clause on a method without a generic list of its own
+    inline = (n % 2 == 0)
     ps = ", ".join(["%s: %s" % ("xy"[i], pty(p)) for i, p in enumerate(sig["params"])] +
                    (["w: &mut DiplomatWrite"] if sig["ret"]["kind"] == "rwerr1" else []))
     sk = sig["self"]["kind"]
     if sk == "sf2b":
         sl = sig["self"]["slots"][0]
+        g, w = (generics(L, decl), "") if inline else generics_where(L, decl)
         return ("    #[diplomat::opaque]\n    pub struct H%d<'p, 'q: 'p>(&'p u8, &'q u8);\n    impl%s H%d<'a, 'b> {\n"
-                "        pub fn m(%sself, %s) -> %s { todo!() }\n    }\n" % (n, generics(L, decl), n, amp(sl), ps, rty(sig["ret"])))
+                "        pub fn m(%sself, %s) -> %s%s { todo!() }\n    }\n" % (n, g, n, amp(sl), ps, rty(sig["ret"]), w))
     selfs = "" if sk == "none" else amp(sig["self"]["slots"][0]) + "self, "
-    return ("    #[diplomat::opaque]\n    pub struct H%d(u8);\n    impl H%d {\n        pub fn m%s(%s%s) -> %s { todo!() }\n    }\n"
-            % (n, n, generics(L, decl), selfs, ps, rty(sig["ret"])))
+    g, w = (generics(L, decl), "") if inline else generics_where(L, decl)
+    return ("    #[diplomat::opaque]\n    pub struct H%d(u8);\n    impl H%d {\n        pub fn m%s(%s%s) -> %s%s { todo!() }\n    }\n"
+            % (n, n, g, selfs, ps, rty(sig["ret"]), w))
 
 
 def render_ctor(n, sig, L):
@@ -150,7 +167,8 @@ def evaluate(rep, cases, L, wd):
         c = cases[n]
         key = {"self": c["sig"]["self"]["kind"], "params": [p["kind"] for p in c["sig"]["params"]], "ret": c["sig"]["ret"]["kind"]}
         if r["ok"]:
-            rep.violation(dict(key, what="signature with an unstated implied bound accepted", missing=c["missing"]),
+            rep.violation(dict(key, what=("return type with an elided lifetime accepted" if c["sig"]["ret"]["kind"].endswith("_e")
+                                          else "signature with an unstated implied bound accepted"), missing=c["missing"]),
                           {"sig": c["sig"], "rust": it, "edges_reported": r["methods"].get("H%d" % n)})
         elif not r["panic"] and not any(ctx == "H%d::m" % n for ctx, _ in r["errors"]):
             rep.violation(dict(key, what="error context"), {"sig": c["sig"], "errors": r["errors"]})
@@ -197,6 +215,25 @@ def backend_emission(rep, cases, L, wd, k):
                 rep.extra["emission_unparsed"] += 1
                 continue
             nchecked += 1
+            if b == "js":
+                # a struct argument is told, per lifetime of its DEFINITION, into which edge arrays the buffers of its slice fields go
+                # (`{pAppendArray: [aEdges], qAppendArray: [aEdges]}`): every output lifetime the definition lifetime flows into
+                need = {}
+                for r_, es in expected_edges(c).items():
+                    for e in es:
+                        if e[1] == "struct":
+                            need.setdefault((e[0], e[2]), set()).add(r_)
+                if need:
+                    t_ = open(os.path.join(out, "H%d.mjs" % n)).read()
+                    for (pn, d), rs in sorted(need.items()):
+                        mm = re.search(r'_fromSuppliedValue\(diplomatRuntime\.internalConstructor, %s\)\._intoFFI\(functionCleanupArena, \{([^}]*)\}' % pn, t_)
+                        arrays = dict(re.findall(r'(\w)AppendArray: \[([^\]]*)\]', mm.group(1))) if mm else {}
+                        have = set(re.findall(r'(\w+)Edges', arrays.get(d, "")))
+                        if not rs <= have:
+                            rep.violation({"leg": "emission", "backend": "js", "what": "append array of a struct argument misses an edge array",
+                                           "param_kind": [p_["kind"] for p_ in c["sig"]["params"]], "ret": c["sig"]["ret"]["kind"]},
+                                          {"sig": c["sig"], "rust": items[n], "parameter": pn, "definition_lifetime": d,
+                                           "expected_edge_arrays": sorted(rs), "emitted": arrays})
             miss = want - got
             if miss:
                 rep.violation({"leg": "emission", "backend": b, "what": "edge not attached", "ret": c["sig"]["ret"]["kind"],
